@@ -5,6 +5,9 @@ TMemEs(s)  == IF s = "drv" THEN "mem" ELSE "es"     \* in-memory driver store, E
 TMemMem(s) == "mem"                                  \* the default: both in memory
 TEsEs(s)   == "es"                                   \* datastore.type = elasticsearch: both write to the metrics cluster
 TPdrv(s)   == s = "drv"
+OnlyRc == {"rc"}
+OnlyDrv == {"drv"}
+Both == {"drv", "rc"}
 
 K1 == {"a"}
 K2 == {"a", "b"}
@@ -19,6 +22,7 @@ CtxOne == {C1}
 CtxTwo == {C1, C2}
 
 W(tmpl, ow, ix, mig, tag) == [tmpl |-> tmpl, ow |-> ow, idx |-> ix, mig |-> mig, tag |-> tag]
+WorldsOne(t) == {W("none", FALSE, FALSE, FALSE, 0)}
 WorldsQuick(t) == IF t = "mem" THEN {W("none", FALSE, FALSE, FALSE, 0)}
                   ELSE {W("none", FALSE, FALSE, FALSE, 0), W("diff", TRUE, TRUE, TRUE, 2)}
 WorldsAll(t) == IF t = "mem" THEN {W("none", FALSE, FALSE, FALSE, tag) : tag \in {0, 2}}
@@ -27,6 +31,7 @@ WorldsAll(t) == IF t = "mem" THEN {W("none", FALSE, FALSE, FALSE, tag) : tag \in
 Md(k0, v) == [k \in AllKeys |-> IF k = k0 THEN v ELSE 0]
 A(kind, lvl, node, md, tm, sty, task, op, opt) ==
     [kind |-> kind, lvl |-> lvl, node |-> node, md |-> md, tm |-> tm, sty |-> sty, task |-> task, op |-> op, opt |-> opt]
+PutOne == {A("value", "cluster", "", NoMeta, "auto", "normal", "t1", "o1", "bulk")}
 PutQuick == {A("value", "cluster", "", NoMeta, "auto", "normal", "t1", "o1", "bulk"),
              A("value", "node", "n1", Md("a", 3), "auto", "warmup", "", "", ""),
              A("doc", "cluster", "", Md("a", 3), "auto", "", "", "", "")}
@@ -42,6 +47,7 @@ PutSim == {a \in PutAll : /\ (a.lvl = "node") = (a.node # "")
                           /\ (a.kind = "doc" => a.sty = "" /\ a.task = "" /\ a.op = "" /\ a.opt = "")}
 
 O(k, bad) == [k |-> k, bad |-> bad]
+AlphaOk(n) == {O("ok", {})}
 AlphaWhole(n) == {O("ok", {}), O("reqT", {}), O("reqF", {})}                       \* a request is indexed completely or not at all
 AlphaAll(n) == {O(k, {}) : k \in {"ok", "reqT", "reqTdone", "reqF"}}
                \cup {O(k, B) : k \in {"itemT", "itemF"}, B \in (SUBSET (1..n)) \ {{}}}
